@@ -97,6 +97,79 @@ def _closure_def(blocks, local, depth=6):
 FN_CALLS = ("std::ops::FnOnce::call_once", "std::ops::Fn::call", "std::ops::FnMut::call_mut")
 
 
+def _grouping_closure(blocks, C, cdef):
+    """A local closure that only groups calls of the enclosing function's generic callables - `let init_input = |slot| {
+    slot.write(gen_input()); count_input(..) }` called from both arms of a match instead of the statements written out
+    twice: (i) its body calls, through an Fn* trait, a value of a generic type it captured, and (ii) in the enclosing
+    function the closure value is used for nothing but being called (borrowed and passed as the callee of Fn*::call*)."""
+    generic_call = False
+    for bl in C.blocks:
+        t = bl["term"]
+        if t["k"] == "call" and norm(t.get("callee") or "") in FN_CALLS and not (t.get("resolved") and "{closure#" in t["resolved"]) and t.get("gargs"):
+            g0 = t["gargs"][0]
+            if g0.startswith("impl ") or (len(g0) <= 6 and g0[:1].isupper() and g0.isidentifier()):
+                generic_call = True
+    if not generic_call:
+        return False
+    holders = set()
+    for bl in blocks:
+        for s_ in bl["stmts"]:
+            if s_["k"] == "assign" and s_["rv"]["k"] == "agg" and s_["rv"].get("ak") == "closure" and norm(s_["rv"]["def"]) == cdef and not s_["p"]["proj"]:
+                holders.add(s_["p"]["l"])
+    if len(holders) != 1:
+        return False
+    refs = set()
+    changed = True
+    while changed:
+        changed = False
+        for bl in blocks:
+            for s_ in bl["stmts"]:
+                if s_["k"] != "assign" or s_["p"]["proj"]:
+                    continue
+                rv = s_["rv"]
+                src = rv["p"]["l"] if rv["k"] == "ref" and not rv["p"]["proj"] else (
+                    rv["o"]["p"]["l"] if rv["k"] == "use" and rv["o"].get("k") in ("move", "copy") and not rv["o"]["p"]["proj"] else None)
+                if src in holders | refs and s_["p"]["l"] not in refs | holders:
+                    refs.add(s_["p"]["l"])
+                    changed = True
+    vals = holders | refs
+
+    def uses(x, acc):
+        if isinstance(x, dict):
+            if "l" in x and "proj" in x:
+                if x["l"] in vals:
+                    acc.append(x)
+                return
+            for v in x.values():
+                uses(v, acc)
+        elif isinstance(x, list):
+            for v in x:
+                uses(v, acc)
+    for bl in blocks:
+        for s_ in bl["stmts"]:
+            if s_["k"] == "assign" and not s_["p"]["proj"] and s_["p"]["l"] in vals:
+                continue        # the definitions collected above
+            acc = []
+            uses(s_, acc)
+            if acc and s_["k"] not in ("storagelive", "storagedead", "nop"):
+                return False
+        t = bl["term"]
+        if t["k"] == "call" and norm(t.get("callee") or "") in FN_CALLS:
+            acc = []
+            uses(t["args"][1:], acc)
+            uses(t.get("dest"), acc)
+            if acc:
+                return False
+        elif t["k"] == "drop":
+            continue
+        else:
+            acc = []
+            uses({k_: v_ for k_, v_ in t.items() if k_ not in ("span",)}, acc)
+            if acc:
+                return False
+    return True
+
+
 def _splice_closure_call(prog, body, raw, blocks, i, t, chain):
     """A call, inside code spliced in from a helper, of a callable parameter that is - in this very function - a closure
     built here (`helper(|x| ..)` with `fn helper(f: impl FnOnce(X))`): the closure's body is spliced in at the call.
@@ -112,11 +185,18 @@ def _splice_closure_call(prog, body, raw, blocks, i, t, chain):
     if C is None or C.kind != "Closure" or len(C.blocks) > MAX_BLOCKS or cdef in ch or len(ch) >= MAX_DEPTH + 1:
         return None
     # only a closure handed INTO the helper (built outside the spliced region that calls it): a closure the helper builds
-    # and calls itself is the helper's own structure, which the rules see as they do in any function
+    # and calls itself is the helper's own structure, which the rules see as they do in any function - unless it is a mere
+    # grouping of calls of the caller's own generic callables (see _grouping_closure)
     built_in = [bl.get("inl") for bl in blocks for s_ in bl["stmts"]
                 if s_["k"] == "assign" and s_["rv"]["k"] == "agg" and s_["rv"].get("ak") == "closure" and norm(s_["rv"]["def"]) == cdef]
-    if len(built_in) != 1 or built_in[0] == blocks[i].get("inl"):
+    if len(built_in) != 1:
         return None
+    if built_in[0] == blocks[i].get("inl"):
+        memo = raw.setdefault("_grouping", {})      # decided once, on the code as written (before any call site is spliced)
+        if cdef not in memo:
+            memo[cdef] = _grouping_closure(blocks, C, cdef)
+        if not memo[cdef]:
+            return None
     nparams = C.arg_count - 1
     if nparams and (tup.get("k") not in ("move", "copy") or tup["p"]["proj"]):
         return None
@@ -262,8 +342,14 @@ def inline_body(prog, body, keep):
                         spliced_closures.append(got)
                     i += 1
                     continue
-            if norm(t.get("callee") or "") in FN_CALLS and blocks[i].get("inl") and not blocks[i].get("cleanup"):
-                got = _splice_closure_call(prog, body, raw, blocks, i, blocks[i]["term"], chain) if raw is not None else None
+            if norm(t.get("callee") or "") in FN_CALLS and not blocks[i].get("cleanup"):
+                if raw is None:
+                    raw = dict(body.raw)
+                    raw["locals"] = list(body.raw["locals"])
+                    raw["debug"] = list(body.raw["debug"])
+                    raw["blocks"] = [dict(b, stmts=list(b["stmts"])) for b in body.raw["blocks"]]
+                    blocks = raw["blocks"]
+                got = _splice_closure_call(prog, body, raw, blocks, i, blocks[i]["term"], chain)
                 if got:
                     inlined.append(got)
                     spliced_closures.append(got)
